@@ -514,6 +514,11 @@ def run(ctx: Ctx):
         k = sorted(meta)[len(meta) // 2]
         ctx.sample({"trace": k, **{a: b for a, b in meta[k].items() if a != "pairs"}, "pairs": meta[k].get("pairs", [])[:12]})
     ctx.extra["trace_scenes_skipped_for_boundary_margin"] = skipped
+    # engine T at manager level: the result list leaving the matcher inside add_frame_result must be an outcome of Matching.tla
+    from . import pipeline_trace
+
+    ctx.extra["manager_executions_validated_as_traces"] = pipeline_trace.run(
+        ctx, n=150 if ctx.quick else 3000, want=lambda rendering, clause: clause.startswith("matching-") or clause == "raised")
     ctx.rule = (
         "TLC enumerates every abstract score table (MC_Matching) and every lattice scene of the slices (MC_MatchingScene: positions, labels, "
         "policies, thresholds, modes, frames, fp-validation); each scene is replayed through get_object_results with 3-D boxes and 2-D ROIs and the "
